@@ -139,16 +139,44 @@ func (R *Repository) loadCRL(entry *Entry, chains *core.CertificateChains) (err 
 	if err != nil {
 		return err
 	}
-	var processor = crlstore.CRLPersisterProcessor{CRLStore: entry.CRLStore}
+	//the list is read into a temporary store which is only moved in place once the list was accepted,
+	//so a rejected or partially read list never becomes visible, not even after a restart
+	identifier, err := entry.CRLLoader.GetCRLLocationIdentifier()
+	if err != nil {
+		return err
+	}
+	store, err := R.Factory.CreateStore(identifier, true)
+	if err != nil {
+		return err
+	}
+	defer func() {
+		if err != nil {
+			store.Close()
+			err2 := store.Delete()
+			if err2 != nil {
+				R.logger.Warn("failed to delete database", zap.Error(err2))
+			}
+		}
+	}()
+	var processor = crlstore.CRLPersisterProcessor{CRLStore: store}
+	//keep the locations which were stored before loading
+	locations, locationsErr := entry.CRLStore.GetCRLLocations()
+	if locationsErr == nil {
+		err = processor.UpdateCRLLocations(locations)
+		if err != nil {
+			return err
+		}
+	}
 	result, err := R.crlReader.ReadCRL(processor, tempFileName)
 	if err != nil {
 		return err
 	}
 	if R.crlConfig.SignatureValidationModeParsed != config.SignatureValidationModeNone {
-		signatureCert, err := verifyCRLSignature(result, chains)
-		if err != nil {
+		signatureCert, verifyErr := verifyCRLSignature(result, chains)
+		if verifyErr != nil {
 			R.logger.Warn("could not validate signature of crl", zap.String("crl", entry.CRLLoader.GetDescription()))
 			if R.crlConfig.SignatureValidationModeParsed == config.SignatureValidationModeVerify {
+				err = verifyErr
 				return err
 			}
 		} else {
@@ -157,9 +185,13 @@ func (R *Repository) loadCRL(entry *Entry, chains *core.CertificateChains) (err 
 			if err != nil {
 				return err
 			}
-			R.logger.Debug("crl loaded successfully", zap.String("crl", entry.CRLLoader.GetDescription()))
 		}
 	}
+	err = entry.CRLStore.Update(store)
+	if err != nil {
+		return err
+	}
+	R.logger.Debug("crl loaded successfully", zap.String("crl", entry.CRLLoader.GetDescription()))
 	entry.Loaded = true
 	entry.Chains = nil
 	return nil
